@@ -6,7 +6,7 @@ use triomphe::{Arc, ArcUnion, HeaderSlice, HeaderWithLength, ThinArc};
 
 fn main() {
     let mut t = Tally::new();
-    for r in 0..rounds(2) {
+    for r in 0..rounds(3) {
         let tag = 80 + r as u64;
         // sized payload: raw, offset, union
         let a = Arc::new(Payload::new(tag));
